@@ -650,7 +650,17 @@ func runC09Concurrent(c *harness.Case, kind string) {
 			atomic.AddInt32(&lateInFlight, -1)
 		}
 	}
-	e.n = harness.NewNode(harness.NodeOpts{KV: e.w, TrackNotify: true, Config: backend.Config{WatchCacheSize: 8192}})
+	// a compaction request is descheduled for 0-3 ms before each of the two reads that bound it (the readable revision,
+	// the oldest unresolved revision): writes with unknown outcomes are sequenced in between
+	var yields uint64
+	ph := func(name string, arg uint64) {
+		if name == "compact.beforeRevisionRead" || name == "compact.beforeQueueRead" {
+			x := uint64(seed)*977 ^ atomic.AddUint64(&yields, 1)*0x9e3779b97f4a7c15
+			x ^= x >> 30
+			time.Sleep(time.Duration(x%3000) * time.Microsecond)
+		}
+	}
+	e.n = harness.NewNode(harness.NodeOpts{KV: e.w, TrackNotify: true, Config: backend.Config{WatchCacheSize: 8192}, PointHandler: ph})
 	defer e.close()
 	n := e.n
 	full := harness.Prefix + "/"
